@@ -71,7 +71,12 @@ def uniquify(t, fields=True):
             n[0] -= 1
             return x
         cs = children(x)
-        return rebuild(x, [go(c) for c in cs]) if cs else x
+        out = rebuild(x, [go(c) for c in cs]) if cs else x
+        if fields and out[0] == "list" and len(out[1]) >= 2 and n[0] % 3 == 0 and out[1][0][0] == "lit" \
+                and out[1][-1][0] == "lit":
+            # a list that repeats one of its values: every written element must still be emitted
+            out = ("list", out[1][:-1] + (out[1][0],))
+        return out
 
     return go(t)
 
@@ -213,6 +218,11 @@ def leaves_check(t, sql, tree, dialect, alias):
     for x in walk(t):
         if x[0] == "call" and x[1] in REPEATING:
             repeat_ok |= f_leaves(x)
+    expected = {}
+    for x in walk(t):
+        m = marker(x)
+        if m:
+            expected[m] = expected.get(m, 0) + 1
     counts = {m: 0 for m in known}
     for k, v in toks:
         if k == "qid":
@@ -230,8 +240,10 @@ def leaves_check(t, sql, tree, dialect, alias):
     for m, c in counts.items():
         if c == 0:
             return ("leaf-missing", "%s does not occur in %s" % (m, sql))
-        if c > 1 and m not in repeat_ok:
-            return ("leaf-duplicated", "%s occurs %d times in %s" % (m, c, sql))
+        if c != expected.get(m, 1) and m not in repeat_ok:
+            return ("leaf-count-differs", "%s occurs %d times in the filter but %d times in %s" % (m, expected.get(m, 1), c, sql))
+        if c < expected.get(m, 1):
+            return ("leaf-count-differs", "%s occurs %d times in the filter but %d times in %s" % (m, expected.get(m, 1), c, sql))
     # quoted identifiers: fields (+ alias) only
     fields = {m[2:] for m in known if m.startswith("c:")}
     for i, (k, v) in enumerate(toks):
